@@ -80,11 +80,25 @@ Fixpoint check_from (a : agent) (is : list input) (os : list obs) : bool :=
   | _, _ => false
   end.
 
+(* the post-states a service announced for one connection, in protocol order: a path of the model's state
+   machine (`can`, which Props.state_machine_is_generated_graph ties to the graph C09's translator reads off the
+   code) from the null state, possibly ending in abandoned *)
+Fixpoint path_ok (cur : st) (l : list st) : bool :=
+  match l with
+  | [] => true
+  | x :: r =>
+      match x, r with
+      | SAbandoned, [] => negb (st_eqb cur SCompleted)
+      | _, _ => can cur x && path_ok x r
+      end
+  end.
+
 Record acase := ACase { k_inputs : list input; k_obs : list obs }.
-Record case := Case { c_agents : list acase }.
+Record case := Case { c_agents : list acase; c_paths : list (list st) }.
 
 Definition check_case (c : case) : bool :=
-  forallb (fun k => check_from agent0 (k_inputs k) (k_obs k)) (c_agents c).
+  forallb (fun k => check_from agent0 (k_inputs k) (k_obs k)) (c_agents c) &&
+  forallb (path_ok SNull) (c_paths c).
 
 Fixpoint mismatches_from (i : nat) (cs : list case) : list nat :=
   match cs with
